@@ -9,6 +9,8 @@ Four obligations, all symx over the real _code_dispatch / _customization code:
 """
 from __future__ import annotations
 
+import os
+
 import functools
 import sys
 import types
@@ -195,7 +197,7 @@ def _s1(sh: Dict[str, Any]) -> Dict[str, Any]:
         if why and len(cex) < 3:
             cex.append({"ob": 1, "ops": [[o, k, (step if v is not None else None)] for step, (o, k, v) in enumerate(ops)], "why": why})
 
-    eng = Engine(max_seconds=sh.get("budget", 200))
+    eng = Engine(max_seconds=sh.get("budget", 200) * (6 if os.environ.get("VERIF_TIER_EFFECTIVE") == "thorough" else 1))
     eng.explore(harness)
     return par.shard_result(eng, shard=f"idict first={OPS[first]}", cex=cex, samples=samples)
 
@@ -277,7 +279,7 @@ def _s2(sh: Dict[str, Any]) -> Dict[str, Any]:
         if why and len(cex) < 3:
             cex.append({"ob": 2, "regs": regs, "via_frames": via, "why": why})
 
-    eng = Engine(max_seconds=200)
+    eng = Engine(max_seconds=200 * (6 if os.environ.get("VERIF_TIER_EFFECTIVE") == "thorough" else 1))
     eng.explore(harness)
     return par.shard_result(eng, shard="dispatch", cex=cex, samples=samples)
 
@@ -469,7 +471,7 @@ def _s3(sh: Dict[str, Any]) -> Dict[str, Any]:
         if why and len(cex) < 3:
             cex.append({"ob": 3, "layers": layers, "why": why})
 
-    eng = Engine(max_seconds=200)
+    eng = Engine(max_seconds=200 * (6 if os.environ.get("VERIF_TIER_EFFECTIVE") == "thorough" else 1))
     eng.explore(harness)
     return par.shard_result(eng, shard="get_code", cex=cex, samples=samples, reached=reached[0])
 
@@ -573,7 +575,7 @@ def _s4(sh: Dict[str, Any]) -> Dict[str, Any]:
         if why and len(cex) < 4:
             cex.append({"ob": 4, "hide": hide, "hide_line": hl, "prune": pr, "elaborate": elab, "form": form, "why": why})
 
-    eng = Engine(max_seconds=200)
+    eng = Engine(max_seconds=200 * (6 if os.environ.get("VERIF_TIER_EFFECTIVE") == "thorough" else 1))
     eng.explore(harness)
     return par.shard_result(eng, shard="customize", cex=cex, samples=samples)
 
